@@ -756,8 +756,8 @@ class AsyncTimeout(AsyncState):
 
     @on_timeout.setter
     def on_timeout(self, value):
-        """Listifies passed values and assigns them to on_timeout."""
-        self._on_timeout = listify(value)
+        """Listifies passed values and assigns them (as a list of its own) to on_timeout."""
+        self._on_timeout = list(listify(value))
 
 
 class _DictionaryMock(dict):
